@@ -39,9 +39,9 @@ pub const SUBS: &[SubDef] = &[
 ];
 
 fn run(ctx: &Ctx) {
-    ctx.run_tape("splits", splits, ctx.pick(6_000, 300_000), 600);
-    ctx.run_tape("refusals", refusals, ctx.pick(4_000, 200_000), 600);
-    ctx.run_tape("history", history, ctx.pick(6_000, 300_000), if ctx.tier == Tier::Quick { 1200 } else { 3000 });
+    ctx.run_tape("splits", splits, ctx.pick(18_000, 300_000), 600);
+    ctx.run_tape("refusals", refusals, ctx.pick(12_000, 200_000), 600);
+    ctx.run_tape("history", history, ctx.pick(18_000, 300_000), if ctx.tier == Tier::Quick { 1200 } else { 3000 });
     ctx.run_tape("cap", cap, ctx.pick(6, 120), 64);
 }
 
